@@ -1,6 +1,7 @@
 import PcfgVerif.Model.Scorer
 import PcfgVerif.Properties.ScoreCoreA
 import PcfgVerif.Properties.ScoreCoreB
+import PcfgVerif.Properties.C13Witness
 /-!
 # C13 — a non-zero score is a promise the guesser keeps
 
@@ -72,5 +73,15 @@ theorem C13_deterministic {P : Type} (mul : P → P → P) (gt : P → P → Boo
     (g : ScoreG P) (U : UEnv) (cfg : MWCfg) (t : MWTable) (pw pw' : CPs) (omenOk : Bool) (h : pw = pw') :
     score mul gt one zero limit g (parse U cfg t pw) omenOk =
     score mul gt one zero limit g (parse U cfg t pw') omenOk := by rw [h]
+
+/-- outside the domain clause the promise fails (recorded known finding, replayed by the harness on the
+real trainer, scorer and guesser): for `ǅabc1` (U+01C5, a letter that is neither upper nor lower case and
+lower-cases to U+01C6) every factor is found, the score is 210 ≠ 0, the pre-terminal of those factors emits
+`ǆabc1` only, and `CaseInvAll` is exactly the hypothesis that does not hold -/
+theorem C13_outside_domain (gt : Nat → Nat → Bool) (limit : Nat) (omenOk : Bool) :
+    (score (· * ·) gt 1 0 limit C13Witness.g (parse C13Witness.titleU {} [] C13Witness.pw) omenOk).prob = 210 ∧
+    toStr C13Witness.pw ∉ productSpec C13Witness.up C13Witness.E [] [("A4", 0), ("C4", 0), ("D1", 0)] ∧
+    ¬ CaseInvAll C13Witness.titleU C13Witness.up C13Witness.pw :=
+  ⟨C13Witness.score_nonzero gt limit omenOk, C13Witness.guesser_emits_other.2, C13Witness.not_caseInv⟩
 
 end Pcfg.C13
